@@ -232,6 +232,10 @@ def additional_data_only_prepended(chk):
                 old = v[2][0][2]
                 idx = e.index
                 ok = (old[0] == "sub" and canon(old[2]) == canon(idx)) or (old[0] == "item" and old[2] == 1 and isinstance(idx, tuple) and idx[0] == "item" and idx[2] == 0 and canon(idx[1]) == canon(old[1]))
+                # ... and the first piece is one empty row dated like the price data's synthetic row: one day before the entry's first date
+                rows = [n for n in sym.walk(v[2][0][1]) if n[0] == "call" and n[1] in ("pd.DataFrame", "pd.Series", "pandas.DataFrame", "pandas.Series")]
+                want_idx = canon(("list", ("-", ("sub", ("attr", old, "index"), sym.ZERO), ("call", "pd.DateOffset", (), (("days", sym.ONE),)))))
+                ok = ok and bool(rows) and all(r_[2] and r_[2][0] == ("nan",) and canon(dict(r_[3]).get("index", sym.NONE)) == want_idx for r_ in rows)
             chk.ob("C04.R6", ok, "bt/backtest.py", "Backtest._process_data", "additional-data-only-prepended", "additional data is only given the synthetic first row: rows are never shifted", where=e.where,
                    found=short(v, 140))
 
